@@ -94,7 +94,8 @@ int run(int argc)
     return x + y + (eq ? 1 : 0) + static_cast<int>(z) + (int) sizeof(s) + (int) cc + (int) Col::G;
 }
 """,
-    "OC": """__attribute__((objc_root_class)) @interface Root
+    "OC": """#include <stdbool.h>
+__attribute__((objc_root_class)) @interface Root
 + (id)alloc;
 - (id)init;
 @end
@@ -130,11 +131,12 @@ EXT = {"C": ".c", "CPP": ".cpp", "OC": ".m", "JAVA": ".java"}
 def compile_id(src, lang, tmp, tag):
     """(status, content id of the object code)"""
     if lang == "C":
-        cmd = ["gcc", "-x", "c", "-std=gnu11", "-S", "-O1", "-g0", "-w", "-o", "-", src]
+        cmd = ["gcc", "-x", "c", "-std=gnu11", "-S", "-O1", "-g0", "-w", "-o", "-", "-"]
     elif lang == "CPP":
-        cmd = ["g++", "-x", "c++", "-std=c++17", "-S", "-O1", "-g0", "-w", "-o", "-", src]
+        cmd = ["g++", "-x", "c++", "-std=c++17", "-S", "-O1", "-g0", "-w", "-o", "-", "-"]
     elif lang == "OC":
-        cmd = ["clang", "-x", "objective-c", "-S", "-O1", "-g0", "-w", "-o", "-", src]
+        # the program is read from standard input: ObjC object code embeds the source file's name
+        cmd = ["clang", "-x", "objective-c", "-S", "-O1", "-g0", "-w", "-o", "-", "-"]
     else:
         d = os.path.join(tmp, "jc_" + tag)
         shutil.rmtree(d, ignore_errors=True)
@@ -150,7 +152,7 @@ def compile_id(src, lang, tmp, tag):
                     h.update(open(os.path.join(d, f), "rb").read())
         shutil.rmtree(d, ignore_errors=True)
         return rc, h.hexdigest()[:16]
-    rc, so, se = sh(cmd, timeout=120)
+    rc, so, se = sh(cmd, timeout=120, input=open(src, "rb").read())
     if rc != 0:
         return rc, ""
     lines = [l for l in so.split(b"\n") if not l.lstrip().startswith((b".file", b".ident"))]
